@@ -444,3 +444,60 @@ lookahead = FunctionContract(
             ("new_sg_count[ge_color, gn_color] = count", "new_sg_count[ge_color, gn_color] = 1")],
 )
 CONTRACTS.append(lookahead)
+
+
+# ------------------------------------------------------------------ ISMAGS._update_orbits: merging the orbits of permuted nodes
+ONode = TKey('ONode')
+OPerm = TTuple(ONode, ONode, names=['a', 'b'])
+
+
+def setup_uo(cx):
+    orbits = cx.box('orbits', TSeq(TSet(ONode)))
+    perms = cx.val('PERMS', TSeq(OPerm))                    # the permutations, each an unordered pair (unpacked in some order)
+    cx.spec_env['PERMS'] = perms
+    return dict(orbits=orbits, permutations=perms)
+
+
+SPEC_UO = {
+    'same': "lambda O, x, y: exists(lambda i: 0 <= i and i < len(O) and x in O[i] and y in O[i])",
+    'covered': "lambda O, x: exists(lambda i: 0 <= i and i < len(O) and x in O[i])",
+    'disjoint': "lambda O: forall(lambda i, j, x: implies(0 <= i and i < j and j < len(O) and x in O[i], not (x in O[j])), TInt, TInt, ONode)",
+}
+UO_INV = [
+    "disjoint(orbits)",
+    "forall(lambda x: covered(orbits, x) == covered(old(orbits), x), ONode)",
+    "forall(lambda x, y: implies(same(old(orbits), x, y), same(orbits, x, y)), ONode, ONode)",
+    "forall(lambda k: implies(0 <= k and k < {I}, same(orbits, PERMS[k].a, PERMS[k].b)))",
+]
+update_orbits = FunctionContract(
+    F, 'ISMAGS._update_orbits', 'C06', setup=setup_uo, spec_defs=SPEC_UO, spec_env=dict(ONode=ONode),
+    locals=dict(first=TOpt(TInt), second=TOpt(TInt), g_O=TSeq(TSet(ONode))),
+    requires=["disjoint(orbits)",
+              "forall(lambda k: implies(0 <= k and k < len(PERMS), covered(orbits, PERMS[k].a) and covered(orbits, PERMS[k].b)))"],
+    ensures=[x.format(I='len(PERMS)') for x in UO_INV],
+    modifies=['orbits'],
+    loops={
+        'L1': LoopSpec(inv=[x.format(I='_i') for x in UO_INV], modifies=['orbits']),
+        'L1.1': LoopSpec(inv=[
+            "(first is None and forall(lambda k: implies(0 <= k and k < _i, not (node in orbits[k])))) or "
+            "(first is not None and 0 <= payload(first) and payload(first) < len(orbits) and node in orbits[payload(first)])",
+            "(second is None and forall(lambda k: implies(0 <= k and k < _i, not (node2 in orbits[k])))) or "
+            "(second is not None and 0 <= payload(second) and payload(second) < len(orbits) and node2 in orbits[payload(second)])"],
+            modifies=[]),
+    },
+    ghost_at={'before:stmt:if first != second:': "g_O = list(orbits)",
+              # the list after the merge, orbit by orbit (named steps for the solver)
+              'after:stmt:del orbits[second]':
+              "prove(len(orbits) == len(g_O) - 1, 'one-orbit-less')\n"
+              "prove(forall(lambda i, x: implies(0 <= i and i < payload(second), (x in orbits[i]) == (x in g_O[i] or (i == payload(first) and x in g_O[payload(second)]))), "
+              "      TInt, ONode), 'orbits-before-the-deleted-one')\n"
+              "prove(forall(lambda i, x: implies(payload(second) <= i and i < len(orbits), (x in orbits[i]) == (x in g_O[i + 1] or "
+              "      (i + 1 == payload(first) and x in g_O[payload(second)]))), TInt, ONode), 'orbits-after-the-deleted-one')\n"
+              "prove(forall(lambda i: implies(0 <= i and i < len(g_O) and i != payload(second), forall(lambda x: implies(x in g_O[i], "
+              "      x in orbits[i if i < payload(second) else i - 1]), ONode))), 'every-other-orbit-survives')\n"
+              "prove(forall(lambda x: implies(x in g_O[payload(second)], x in orbits[payload(first) if payload(first) < payload(second) else payload(first) - 1]), ONode), "
+              "      'the-deleted-orbit-is-in-the-merged-one')"},
+    canary=[("orbits[first].update(orbits[second])", "orbits[second].update(orbits[first])"),
+            ("del orbits[second]", "del orbits[first]")],
+)
+CONTRACTS.append(update_orbits)
